@@ -468,7 +468,7 @@ func runBurstRound(round, n int, seen map[string]int) (term string, directs []st
 			}
 		}
 		if cl.st != want && cl.direct == "" {
-			directs = append(directs, fmt.Sprintf("round %d: caller %d (%s, call id %q) returned %s", round, t, []string{"SendCall", "SendReplyCall", "SendCallAndWaitReplayCall"}[cl.kind], cl.callID, cl.st))
+			directs = append(directs, fmt.Sprintf("round %d: caller %d (%s, call id %s) returned %s", round, t, []string{"SendCall", "SendReplyCall", "SendCallAndWaitReplayCall"}[cl.kind], cl.callID, cl.st))
 		}
 	}
 	if nblocked > 3 {
